@@ -1,5 +1,6 @@
 import ServiceModel.Proofs.CtxOrigin
 import ServiceModel.Proofs.ParamsStable
+import ServiceModel.Proofs.OnceRestart
 /-!
 # C09 — Request contexts follow their lifecycle state machine
 -/
@@ -91,5 +92,22 @@ theorem consumer_set_fields_change_only_by_update {cfg : Config} {p : Params} {h
     (hx : Map.get s.ctxs c = some x) (hy : Map.get (step s op).1.ctxs c = some y) (hnu : op.updTarget ≠ some c) :
     y.provs = x.provs ∧ y.cap = x.cap ∧ y.timeout = x.timeout ∧ y.freq = x.freq ∧ y.total = x.total ∧ y.thr = x.thr :=
   step_params_stable (reachable_inv hc hr) op hw c x y hx hy hnu
+
+/-- A zero-height restart loses no context and invents none, and changes nothing of a context but what the preparation
+    resets: every context of the old chain comes back paused with its batch completed and the two counters of that
+    batch at zero — service, providers, consumer, fee cap, timeout, super-mode and repeat flags, frequency, total,
+    **batch counter**, thresholds and owning module are what they were. (A completed context is *not* final over a
+    restart: the preparation pauses it like every other — `ResetRequestContextsStateAndBatch` makes no exception —, so
+    "completed is final" is a statement about a chain between restarts; the harness shows the same on the code.) -/
+theorem context_over_restart (hc : CfgOK cfg p) {s s' : State} (hr : ReachableR cfg p h0 t0 s) {height time : Int}
+    (hre : restart s height time = some s') (c : CtxId) :
+    Map.get s'.ctxs c = (Map.get s.ctxs c).map resetCtx ∧
+    ∀ x : Ctx, (resetCtx x).svc = x.svc ∧ (resetCtx x).provs = x.provs ∧ (resetCtx x).cons = x.cons ∧
+      (resetCtx x).cap = x.cap ∧ (resetCtx x).timeout = x.timeout ∧ (resetCtx x).super = x.super ∧
+      (resetCtx x).rep = x.rep ∧ (resetCtx x).freq = x.freq ∧ (resetCtx x).total = x.total ∧
+      (resetCtx x).batch = x.batch ∧ (resetCtx x).bthr = x.bthr ∧ (resetCtx x).thr = x.thr ∧ (resetCtx x).mod = x.mod ∧
+      (resetCtx x).state = .paused ∧ (resetCtx x).bstate = .completed :=
+  ⟨restart_ctxs (reachableR_invAll hc hr) hre c,
+   fun _ => ⟨rfl, rfl, rfl, rfl, rfl, rfl, rfl, rfl, rfl, rfl, rfl, rfl, rfl, rfl, rfl⟩⟩
 
 end SM.C09
